@@ -52,8 +52,9 @@ type vCmpVersion struct {
 	fits  bool            // every present component fits an int
 }
 
-// vCmpDrawN draws a version of exactly n components; zeros is prepended to the first one.
-func vCmpDrawN(name string, n int, zeros string) vCmpVersion {
+// vCmpDrawN draws a version of exactly n components; zeros is prepended to the first one; with
+// mustFit every component is assumed to fit an int (<= MaxInt64).
+func vCmpDrawN(name string, n int, zeros string, mustFit bool) vCmpVersion {
 	v := vCmpVersion{text: "v", fits: true}
 	for i := 0; i < n; i++ {
 		x := zzverif.U64(name + ".p" + strconv.Itoa(i))
@@ -67,7 +68,9 @@ func vCmpDrawN(name string, n int, zeros string) vCmpVersion {
 		v.text += p
 		v.parts = append(v.parts, p)
 		v.vals[i] = x
-		if x > math.MaxInt64 {
+		if mustFit {
+			zzverif.Assume(x <= math.MaxInt64)
+		} else if x > math.MaxInt64 {
 			v.fits = false
 		}
 	}
@@ -75,8 +78,8 @@ func vCmpDrawN(name string, n int, zeros string) vCmpVersion {
 }
 
 // vCmpDraw draws a version of 0..4 components.
-func vCmpDraw(name string) vCmpVersion {
-	return vCmpDrawN(name, zzverif.Choice(name+".n", vCmpMax+1), "")
+func vCmpDraw(name string, mustFit bool) vCmpVersion {
+	return vCmpDrawN(name, zzverif.Choice(name+".n", vCmpMax+1), "", mustFit)
 }
 
 // vCmpGE is the specification: lexicographic >= on zero-padded numeric vectors.
@@ -107,7 +110,7 @@ func vCmpCall(a, b vCmpVersion) (bool, error) {
 // the lexicographic >= of the zero-padded numeric vectors.
 func H_C30_compareSpec() {
 	zzverif.Unwind(vCmpUnwind)
-	a, b := vCmpDraw("a"), vCmpDraw("b")
+	a, b := vCmpDraw("a", false), vCmpDraw("b", false)
 	ge, err := vCmpCall(a, b)
 	if !a.fits || !b.fits {
 		zzverif.Assert(err != nil && !ge, "C30.atoi_error_no_verdict")
@@ -125,9 +128,8 @@ func H_C30_compareLeadingZeros() {
 	if zzverif.Bool("two_zeros") {
 		zeros = "00"
 	}
-	a := vCmpDrawN("a", 1+zzverif.Choice("a.n", 2), zeros)
-	b := vCmpDrawN("b", 1, "")
-	zzverif.Assume(a.fits && b.fits)
+	a := vCmpDrawN("a", 1+zzverif.Choice("a.n", 2), zeros, true)
+	b := vCmpDrawN("b", 1, "", true)
 	ge, err := vCmpCall(a, b)
 	zzverif.Assert(err == nil && ge == vCmpGE(a.vals, b.vals), "C30.compare_leading_zeros")
 }
@@ -136,8 +138,7 @@ func H_C30_compareLeadingZeros() {
 // equal (missing components = 0).  Components that fit an int.
 func H_C30_compareReflexiveTotal() {
 	zzverif.Unwind(vCmpUnwind)
-	a, b := vCmpDraw("a"), vCmpDraw("b")
-	zzverif.Assume(a.fits && b.fits)
+	a, b := vCmpDraw("a", true), vCmpDraw("b", true)
 	aa, err0 := vCmpCall(a, a)
 	ab, err1 := vCmpCall(a, b)
 	ba, err2 := vCmpCall(b, a)
@@ -149,7 +150,6 @@ func H_C30_compareReflexiveTotal() {
 
 // vCmpTransitive: a >= b and b >= c  =>  a >= c, on the real function (three calls).
 func vCmpTransitive(a, b, c vCmpVersion) {
-	zzverif.Assume(a.fits && b.fits && c.fits)
 	ab, err1 := vCmpCall(a, b)
 	bc, err2 := vCmpCall(b, c)
 	ac, err3 := vCmpCall(a, c)
@@ -157,16 +157,9 @@ func vCmpTransitive(a, b, c vCmpVersion) {
 	zzverif.Assert(!(ab && bc) || ac, "C30.order_transitive")
 }
 
-// H_C30_compareTransitive: transitivity over three versions, every combination of component
-// counts in 0..2 (27 shapes); the full 0..4 range is H_C30_T_compareTransitive4.
+// H_C30_compareTransitive: transitivity over three versions, every component-count combination
+// in 0..4 (125 shapes).
 func H_C30_compareTransitive() {
 	zzverif.Unwind(vCmpUnwind)
-	la, lb, lc := zzverif.Choice("a.n", 3), zzverif.Choice("b.n", 3), zzverif.Choice("c.n", 3)
-	vCmpTransitive(vCmpDrawN("a", la, ""), vCmpDrawN("b", lb, ""), vCmpDrawN("c", lc, ""))
-}
-
-// H_C30_T_compareTransitive4: transitivity, every component-count combination in 0..4 (125 shapes).
-func H_C30_T_compareTransitive4() {
-	zzverif.Unwind(vCmpUnwind)
-	vCmpTransitive(vCmpDraw("a"), vCmpDraw("b"), vCmpDraw("c"))
+	vCmpTransitive(vCmpDraw("a", true), vCmpDraw("b", true), vCmpDraw("c", true))
 }
